@@ -34,7 +34,7 @@ def cases(tier):
     out += [("npt", r) for r in range(80 if tier == "quick" else 3000)]
     out += [("inv", r) for r in range(60 if tier == "quick" else 2000)]
     out += [("ball", r) for r in range(80 if tier == "quick" else 3000)]
-    out += [("symext", r) for r in range(24 if tier == "quick" else 300)]
+    out += [("symext", r) for r in range(48 if tier == "quick" else 480)]
     return out
 
 
@@ -272,16 +272,27 @@ def _run_symext(ctx, spec, rng):
     level = 1 + (r // 6) % 2
     cplx = bool(r % 2)
     rho = gen.product_state_mixture(rng, da, db, int(rng.integers(1, 6)), cplx)
+    ppt = (r // 12) % 2 == 0  # the flag's default, and the search without the PPT constraint
+    if ctx.tier == "quick" and r >= 24 and level > 1 and da * db > 6:
+        return  # second lap of the quick tier: the cheap branches only
+    kind = "mixture"
+    if (r // 24) % 2:
+        # separable by construction: a nearly pure state of the first party times a mixed state of the second, plus a little white noise
+        a = gen.unit(rng, da, cplx)
+        sig_b = gen.density(rng, db, db, cplx)
+        eps = float(rng.choice([0.02, 0.1, 0.3]))
+        rho = (1 - eps) * np.kron(np.outer(a, a.conj()), sig_b) + eps * np.eye(da * db) / (da * db)
+        kind = "pure-x-mixed+noise"
     if not cplx:
         rho = rho.real
     tracer.clear_last("has_symmetric_extension")
     ctx.evals["solver-call"] += 1
     mech = "crash:has_symmetric_extension[dims-not-forwarded-to-hierarchy,unequal-dims]" if da != db and level > 1 and da * db > 6 else None
-    ans = ctx.call(has_symmetric_extension, rho, level, [da, db], solver=True, mech=mech)
+    ans = ctx.call(has_symmetric_extension, rho, level, [da, db], ppt, solver=True, mech=mech)
     if ans is FAILED:
         return
     site = tracer.last_site("has_symmetric_extension")
     branch = "sdp-branch" if site and "isclose" in site else "shortcut-branch"
-    ctx.check("O4:symmetric-extension-accepts-separable", bool(ans) is True, sig=(da, db, level, cplx), nt=True,
-              mech=f"has_symmetric_extension:rejects-separable-state[{branch}]", detail={"dims": [da, db], "level": level, "return_site": site})
+    ctx.check("O4:symmetric-extension-accepts-separable", bool(ans) is True, sig=(da, db, level, cplx, ppt, kind), nt=True,
+              mech=f"has_symmetric_extension:rejects-separable-state[{branch}]", detail={"dims": [da, db], "level": level, "ppt": ppt, "kind": kind, "return_site": site})
     ctx.sample("O4:symmetric-extension-accepts-separable", {"dims": [da, db], "level": level, "answer": bool(ans), "return_site": site})
